@@ -133,8 +133,28 @@ MUTANTS = [
      "                    Pair::End(right) => Pair::End(format_type_info_internal(\n                        ctx,\n                        right,\n                        context.mark_contains_union(),",
      "                    Pair::End(right) => Pair::End(format_type_info_internal(\n                        ctx,\n                        right,\n                        context,",
      "Union-operand-without-mark_contains_union"),
+    ("keep-bracket-level-zeroed", "C03", "src/formatters/general.rs",
+     "                blocks: *blocks,\n                comment: comment.into(),", "                blocks: 0,\n                comment: comment.into(),",
+     "comment-field-rewritten MultiLineComment.blocks"),
+    ("keep-comment-trimmed-both-ends", "C03", "src/formatters/general.rs",
+     "    comment.trim_end()", "    comment.trim()", "comment-field-rewritten"),
+    ("keep-lookahead-eats-any-newline-token", "C03", "src/formatters/general.rs",
+     """                        if let TokenType::Whitespace { characters } = next_trivia.token_type() {
+                            if characters.contains('\\n') {
+                                // Consume iterator once to skip the next iteration
+                                trivia_iter.next();
+                            }
+                        }""",
+     """                        if next_trivia.to_string().contains('\\n') {
+                            trivia_iter.next();
+                        }""", "trivia-token-dropped via=lookahead"),
+    ("keep-pop-also-line-comments", "C03", "src/formatters/general.rs",
+     "            TokenKind::Whitespace => pop_until_no_whitespace(trivia),", "            TokenKind::Whitespace | TokenKind::Shebang => pop_until_no_whitespace(trivia),",
+     "popped-non-whitespace"),
+    ("keep-eof-any-comment", "C03", "src/formatters/general.rs",
+     "        .all(|x| x.token_kind() == TokenKind::Whitespace);", "        .all(|x| x.token_kind() != TokenKind::SingleLineComment);", "eof-trivia-dropped kinds="),
     ("regex-drop-z", "C04", "src/formatters/general.rs",
-     'r#"^[^\\n\\r"\'0-9\\\\abfnrtuvxz]$"#', 'r#"^[^\\n\\r"\'0-9\\\\abfnrtuvx]$"#', "missing=z"),
+     'r#"^[^\\n\\r"\'0-9\\\\abfnrtuvxz]$"#', 'r#"^[^\\n\\r"\'0-9\\\\abfnrtuvx]$"#', "escape-dropped=z"),
     ("group-line-distance", "C12", "src/sort_requires.rs",
      "                            current_line - previous_require_line > 1", "                            current_line - previous_require_line > 2", "new-group-conditions"),
     ("group-kind-ignored", "C12", "src/sort_requires.rs",
